@@ -224,7 +224,14 @@ def hist_to_vector(cfg, hist, vid, fam, cont, n):
         elif k == "quiesce":
             cmds.append(["settle"])
         elif k == "insert":
-            cmds.append(["insert"])
+            if e.get("key", 0) < 0:
+                # members added through `extend` (no key is reported): consecutive ones form one call
+                if cmds and cmds[-1][0] == "extend" and prev and prev["e"] == "insert" and prev.get("key", 0) < 0:
+                    cmds[-1][1] += 1
+                else:
+                    cmds.append(["extend", 1])
+            else:
+                cmds.append(["insert"])
         elif k == "remove":
             cmds.append(["removekey", e["key"]])
         elif k == "reserve":
